@@ -7,12 +7,12 @@
 //!
 //! Sandbox layout of one run (W = <scratch>/w<case>):
 //!   W/arch/{base.mpq,patch.mpq,*.lst}    inputs
-//!   W/r1/r2/root/                        where names with a leading separator point to: an abstract
-//!                                        absolute name  \x\y  is concretised as \<W>\r1\r2\root\x\y so
+//!   W/r1/r2/r3/r4/r5/root/               where names with a leading separator point to: an abstract
+//!                                        absolute name  \x\y  is concretised as \<W>\r1\..\root\x\y so
 //!                                        that even a successful escape stays inside the sandbox
-//!   W/p1/p2/work/                        cwd of the CLI process
-//!   W/p1/p2/work/out                     the requested output directory
-//! Names have <= 4 components, so `..` can climb at most 3 levels above out / root: still inside W.
+//!   W/d1/d2/p1/p2/work/                  cwd of the CLI process
+//!   W/d1/d2/p1/p2/work/out               the requested output directory
+//! Names have <= 6 components, so `..` can climb at most 5 levels above out / root: still inside W.
 use std::collections::BTreeMap;
 use std::os::unix::fs::MetadataExt;
 use std::path::{Path, PathBuf};
@@ -21,7 +21,7 @@ use std::time::{Duration, Instant};
 use wow_mpq::{ArchiveBuilder, ListfileOption};
 use wverif_common::*;
 
-const OUT_REL: [&str; 4] = ["p1", "p2", "work", "out"];
+const OUT_REL: [&str; 6] = ["d1", "d2", "p1", "p2", "work", "out"];
 
 #[derive(Clone)]
 struct AName {
@@ -60,6 +60,9 @@ fn concretise(n: &AName, i: usize, root: &Path) -> String {
             "P" => "..".to_string(),
             "D" => ".".to_string(),
             "E" => String::new(),
+            "T" => "...".to_string(),
+            "Q" => "....".to_string(),
+            "S" => ".. ".to_string(),
             "a" => format!("a{i}"),
             "U" => format!("\u{fc}{i}"),
             "L" => {
@@ -260,8 +263,8 @@ fn one_run(cli: &Path, base: &Path, case_id: &str, case: &Value, names: &[AName]
     let w = base.join(format!("w{}", case_id.replace('.', "_")));
     let _ = std::fs::remove_dir_all(&w);
     let arch = w.join("arch");
-    let root = w.join("r1").join("r2").join("root");
-    let work = w.join("p1").join("p2").join("work");
+    let root = w.join("r1").join("r2").join("r3").join("r4").join("r5").join("root");
+    let work = w.join("d1").join("d2").join("p1").join("p2").join("work");
     let out = work.join("out");
     for d in [&arch, &root, &work] {
         std::fs::create_dir_all(d).unwrap_or_else(|e| tool_error(&format!("mkdir {d:?}: {e}")));
